@@ -16,7 +16,8 @@ import Driver.Util
     feed i s HEX [CAP [NEINTR]] | eof i s [CAP [NEINTR]] | drain i s [CAP [NEINTR]] | flush i
                                                     -> <ncalls> <last ret> <th->rc> | S:HEX ...
         (CAP: the read(2) of the handler call delivers at most CAP bytes -- `handleCap`; 0 = EAGAIN although
-         data is there; NEINTR: that many reads fail with EINTR first -- retried inside cbuf.c, invisible here)
+         data is there; `E`: the read fails with EIO -- `handleFail`, the diagnostic is answered as `9:-`;
+         NEINTR: that many reads fail with EINTR first -- retried inside cbuf.c, invisible here)
     run i s HEX ...  (whole stream = `runStream`)   -> run <th->rc|-> | S:HEX ...
     rcperr i e POPT RV HEX ...  (`_parallel_copy` with pcp_server/pcp_client returning RV)
                                                     -> rcp <RV> | S:HEX ...
@@ -93,6 +94,10 @@ def step (ops : BufOps β) (mk : Option β) (sizeMeta : Nat) (split : Bool)
               match Hex.decode (more.head?.getD "-") with
               | some bs =>
                 if strm.weof ∧ !bs.isEmpty then (st, "bad-op")
+                else if more[1]? = some "E" then
+                  -- the read fails (EIO): `handleFail`
+                  let (r, strm', rc', ems) := handleFail { strm with pipe := strm.pipe ++ bs } host.rc
+                  (put strm' rc', answer 1 r rc' ems)
                 else
                   let (r, strm', rc', ems) :=
                     handleCap ops cs.cfg host.name sno readRc (capOf more[1]?) { strm with pipe := strm.pipe ++ bs } host.rc
